@@ -152,6 +152,21 @@ Fixpoint join_multiline (ks : list (list item)) : list item :=
 Fixpoint lines_of (ks : list (list item)) : list item :=
   match ks with [] => [] | k :: r => k ++ NL :: lines_of r end.
 
+(* ppContinuesExpression: the printed statement starts with a token the parser would take as a
+   continuation of the previous line (+ and - are prefix and infix operators, "(" after an
+   identifier is a call); such a statement is printed with a leading ";" unless it is the
+   first of its block (repair C08-5) *)
+Definition continues (k : list item) : bool :=
+  match k with
+  | T id _ _ :: _ => Nat.eqb id TokenMINUS || Nat.eqb id TokenPLUS || Nat.eqb id TokenLPAREN
+  | _ => false
+  end.
+Definition sep_of (k : list item) : list item := if continues k then [kw TokenSEMICOLON] else [].
+Fixpoint lines_more (ks : list (list item)) : list item :=
+  match ks with [] => [] | k :: r => sep_of k ++ k ++ NL :: lines_more r end.
+Definition lines_sep (ks : list (list item)) : list item :=
+  match ks with [] => [] | k :: r => k ++ NL :: lines_more r end.
+
 Definition container (open close : nat) (threshold : nat) (ks : list (list item)) : list item :=
   if threshold <? length ks
   then kw open :: NL :: join_multiline ks ++ [kw close]
@@ -199,9 +214,9 @@ Fixpoint last_kid (ks : list (list item)) : list item :=
 Fixpoint middle_lines (ks : list (list item)) : list item :=
   match ks with [] => [] | [_] => [] | k :: r => k ++ NL :: middle_lines r end.
 
-Definition assemble_special (name : string) (v : bytes) (cs : list node) (ks : list (list item))
+Definition assemble_special (semi : bool) (name : string) (v : bytes) (cs : list node) (ks : list (list item))
   : list item :=
-  if String.eqb name NodeSTATEMENTS then lines_of ks
+  if String.eqb name NodeSTATEMENTS then (if semi then lines_sep ks else lines_of ks)
   else if String.eqb name NodeFUNCCALL then join_comma ks
   else if String.eqb name NodeLIST then container TokenLBRACK TokenRBRACK 4 ks
   else if String.eqb name NodeMAP then container TokenLBRACE TokenRBRACE 2 ks
@@ -253,6 +268,7 @@ Definition assemble_special (name : string) (v : bytes) (cs : list node) (ks : l
 Section Style.
   Variable needsf : cls -> nat -> node -> bool.      (* bracket rule *)
   Variable strk : bytes -> bool -> bool.             (* string kind after printing *)
+  Variable semi : bool.                              (* statement separator where needed (C08-5) *)
 
   Definition assemble (par : cls) (name : string) (v : bytes) (a : bool)
              (cs : list node) (ks : list (list item)) : list item :=
@@ -262,7 +278,7 @@ Section Style.
     | CAtom id, [] =>
       [T id (if has_value id then v else [])
          (if Nat.eqb id TokenSTRING then strk v a else false)]
-    | _, _ => assemble_special name v cs ks
+    | _, _ => assemble_special semi name v cs ks
     end.
 
   Fixpoint pp_gen (n : node) : list item :=
@@ -283,8 +299,10 @@ Section Style.
 End Style.
 
 (* the repaired printer and a faithful model of the bracket / string rules before the repair *)
-Definition pp : node -> list item := pp_gen needs str_allow.
-Definition pp_old : node -> list item := pp_gen needs_old str_allow_old.
+Definition pp : node -> list item := pp_gen needs str_allow true.
+Definition pp_old : node -> list item := pp_gen needs_old str_allow_old false.
+(* the repaired bracket / string rules without the statement separator (before C08-5) *)
+Definition pp_nosemi : node -> list item := pp_gen needs str_allow false.
 
 (* ---------------------------------------------------------------------------------- *)
 (* The parser on expressions: parser.run with ndTerm / ndIdentifier (plain identifier) /
